@@ -1,6 +1,10 @@
 """Static per-property metadata that goes into evidence files: residue that is NOT decided, trusted base, assumptions.
 (The measured part - obligations, counts, times - is produced by the run itself.)"""
 
+VERUS_TRUSTED = [
+    "Verus 0.2026.09.13 + its Z3 (SMT encoding of the extracted functions; vstd's specifications of core/std items)",
+    "the extractor's rewrite rules (DESIGN §2.2): listed with their application counts under coverage.rewrite_rules_applied; the per-function diffs real text -> verified text are under evidence/diffs/",
+]
 COMMON_TRUSTED = [
     "Kani 0.68 / CBMC 6.11 (symbolic execution of the MIR of the real crate, incl. its model of atomics as sequential operations; compare_exchange_weak never fails spuriously in the model)",
     "rustc front end; Kani's std-library models",
